@@ -757,6 +757,11 @@ func init() {
 		same2 := e2sched{E2: e2p{Clients: 2, Type: "counter", Prefix: "joined", Tolerant: true}, Setup: []pact{inc(0), inc(1)}, Conc: []pact{{Op: "sync", R: 0}, {Op: "sync", R: 1}}, AtEnd: end}
 		same3 := e2sched{E2: e2p{Clients: 3, Type: "counter", Prefix: "joined", Tolerant: true}, Setup: []pact{inc(0), inc(1), inc(2)}, Conc: []pact{{Op: "sync", R: 0}, {Op: "sync", R: 1}, {Op: "sync", R: 2}}, AtEnd: end}
 		diff2 := e2sched{E2: e2p{Clients: 2, Type: "counter", Keys: []string{"k1", "k2"}, Prefix: "joined", Exchange: "pack", Tolerant: true}, Setup: []pact{inc(0), {Op: "inc", R: 1, P: 1, T: "k2|"}}, Conc: []pact{{Op: "sync", R: 0}, {Op: "sync", R: 1}}, AtEnd: end}
+		// both clients hold both datatypes and sync them in one message each, naming them in opposite orders (the order of the
+		// packs in a message is Go's map order): the handlers of one message must not wait for each other
+		crossed2 := diff2
+		crossed2.Setup = []pact{inc(0), {Op: "inc", R: 0, P: 1, T: "k2|"}, inc(1), {Op: "inc", R: 1, P: 1, T: "k2|"}}
+		crossed2.Conc = []pact{{Op: "sync", R: 0}, {Op: "sync", R: 1, K: "rev"}}
 		fresh := e2sched{E2: e2p{Clients: 2, Type: "counter", Tolerant: true}, Conc: []pact{{Op: "opensync", R: 0, T: "k1", K: "soc"}, {Op: "opensync", R: 1, T: "k1", K: "soc"}}, AtEnd: append([]string{"onedoc"}, end[1:]...)} // no "serial": the datatype ids are drawn during the concurrent phase and so named by the schedule
 		// a caller gives up in the middle of its call (its context is cancelled while the handler works): one such event
 		// per execution, at every decision point at which a call is being served
@@ -774,10 +779,10 @@ func init() {
 		giveupFresh.GiveUps = 1
 		if tier == "quick" {
 			p.BudgetS = 600
-			p.Runs = []Run{schedRun("same-key-2-caller-gives-up-b2", 2, giveup2, 0), schedRun("fresh-key-2-caller-gives-up-b2", 2, giveupFresh, 0), schedRun("patch-vs-syncs-b2", 2, patchSync, 0), schedRun("connect-vs-syncs-b2", 2, connectSync, 0), schedRun("same-key-2-b3", 3, same2, 0), schedRun("different-keys-2-b2", 2, diff2, 0), schedRun("fresh-key-2-b3", 3, fresh, 0), schedRun("same-key-3-b2", 2, same3, 0)}
+			p.Runs = []Run{schedRun("same-key-2-caller-gives-up-b2", 2, giveup2, 0), schedRun("fresh-key-2-caller-gives-up-b2", 2, giveupFresh, 0), schedRun("patch-vs-syncs-b2", 2, patchSync, 0), schedRun("connect-vs-syncs-b2", 2, connectSync, 0), schedRun("same-key-2-b3", 3, same2, 0), schedRun("different-keys-2-b2", 2, diff2, 0), schedRun("two-keys-crossed-order-b2", 2, crossed2, 0), schedRun("fresh-key-2-b3", 3, fresh, 0), schedRun("same-key-3-b2", 2, same3, 0)}
 		} else {
 			p.BudgetS = 3400
-			p.Runs = []Run{schedRun("same-key-2-caller-gives-up-b3", 3, giveup2, 0), schedRun("fresh-key-2-caller-gives-up-b3", 3, giveupFresh, 0), schedRun("patch-vs-syncs-b3", 3, patchSync, 0), schedRun("connect-vs-syncs-b3", 3, connectSync, 0), schedRun("same-key-2-b4", 4, same2, 0), schedRun("different-keys-2-b3", 3, diff2, 0), schedRun("fresh-key-2-b4", 4, fresh, 0), schedRun("same-key-3-b3", 3, same3, 0)}
+			p.Runs = []Run{schedRun("same-key-2-caller-gives-up-b3", 3, giveup2, 0), schedRun("fresh-key-2-caller-gives-up-b3", 3, giveupFresh, 0), schedRun("patch-vs-syncs-b3", 3, patchSync, 0), schedRun("connect-vs-syncs-b3", 3, connectSync, 0), schedRun("same-key-2-b4", 4, same2, 0), schedRun("different-keys-2-b3", 3, diff2, 0), schedRun("two-keys-crossed-order-b3", 3, crossed2, 0), schedRun("fresh-key-2-b4", 4, fresh, 0), schedRun("same-key-3-b3", 3, same3, 0)}
 		}
 		return p
 	}
